@@ -275,7 +275,38 @@ def lexer_tables():
         raise TableError("lexer rule list not recognised")
     asg = _class_assigns(cls)
     pats = {k: asg[k].value for k in ("key_pattern", "logical_not_pattern", "logical_and_pattern", "logical_or_pattern") if k in asg}
-    return {"rules": rules, "env_tokens": env_tokens, "longest_first": sort_desc, "patterns": pats}
+    # the patterns built in __init__ (`self.x_pattern = r"..."` / rf"...{self.key_pattern}..."), in source order,
+    # and the flags of the final re.compile
+    init = []
+    for n in cls.body:
+        if isinstance(n, ast.FunctionDef) and n.name == "__init__":
+            for s in n.body:
+                if (isinstance(s, ast.Assign) and isinstance(s.targets[0], ast.Attribute) and isinstance(s.targets[0].value, ast.Name)
+                        and s.targets[0].value.id == "self" and s.targets[0].attr.endswith("_pattern")):
+                    init.append((s.targets[0].attr, _pattern_text(s.value)))
+        if isinstance(n, ast.FunctionDef) and n.name == "compile_rules":
+            for r in ast.walk(n):
+                if isinstance(r, ast.Return) and isinstance(r.value, ast.Call) and _name_of(r.value.func) in ("compile", "re.compile"):
+                    flags = sorted(a.attr for a in ast.walk(ast.Module(body=[ast.Expr(x) for x in r.value.args[1:]], type_ignores=[])) if isinstance(a, ast.Attribute))
+                    init.append(("<flags>", "|".join(flags)))
+    return {"rules": rules, "env_tokens": env_tokens, "longest_first": sort_desc, "patterns": pats, "init": init}
+
+
+def _pattern_text(node):
+    """text of a (possibly f-)string pattern; `{self.name}` placeholders are kept as `{name}`"""
+    if isinstance(node, ast.Constant) and isinstance(node.value, str):
+        return node.value
+    if isinstance(node, ast.JoinedStr):
+        out = []
+        for v in node.values:
+            if isinstance(v, ast.Constant):
+                out.append(v.value)
+            elif isinstance(v, ast.FormattedValue) and isinstance(v.value, ast.Attribute) and v.format_spec is None and v.conversion == -1:
+                out.append("{" + v.value.attr + "}")
+            else:
+                raise TableError("unrecognised pattern placeholder")
+        return "".join(out)
+    raise TableError("unrecognised pattern expression")
 
 
 # ------------------------------------------------------------------ cli.py
@@ -397,6 +428,7 @@ def render_lean(t) -> str:
     a("def lexerEnvTokens : List (String × String) := " + llist(f"({lstr(k)}, {lstr(v)})" for k, v in lx["env_tokens"]))
     a(f"def lexerEnvTokensLongestFirst : Bool := {'true' if lx['longest_first'] else 'false'}")
     a("def lexerPatterns : List (String × String) := " + llist(f"({lstr(k)}, {lstr(v)})" for k, v in sorted(lx["patterns"].items())))
+    a("def lexerInitPatterns : List (String × String) := " + llist(f"({lstr(k)}, {lstr(v)})" for k, v in lx["init"]))
     c = t["cli"]
     a("\n/-- cli.py: per handler, its `try` blocks: (functions called in the body, handlers: (classes, --debug re-raises, writes stderr, exit code)) -/")
     def tr(x):
